@@ -237,6 +237,8 @@ def finish(ctx, names, discharged, coq_err, axioms, build_rc, build_out, t0, che
     rc = 0
     replay_path = None
     if new_viol:
+        # smallest failing inputs first (shrinking by selection over the generated families)
+        new_viol.sort(key=lambda v: sum(len(l) for l in v.get('lines', [])))
         replay_path = os.path.join(VERIF, 'replays', '%s-%s-%d.json' % (pid, ctx.tier, ctx.seed))
         json.dump({'property': pid, 'seed': ctx.seed, 'tier': ctx.tier, 'failing_inputs': new_viol[:20],
                    'total_failing_inputs': len(new_viol), 'broken_obligations': broken}, open(replay_path, 'w'), indent=1, default=str)
